@@ -249,8 +249,8 @@ def run(ctx):
     cov["trusted_base"] = vlib.STD_TRUSTED + [
         "modelled, not verified: go-memdb / iradix watch granularity is abstracted to 'a watch on an index value or prefix fires when a row under it differs' (checked one-directionally on every run: model fires => real watch fired)",
         "fragment of the model: empty node IDs (no rename by ID), no session-type checks, no gateways, peers or transactions, lower-case names; service_kind.* rows and the un-peered duplicates of catalog index rows omitted (no modelled query reads them); these areas get the direct oracle only (ext stream)",
-        "Server.SetQueryMeta's floor (index < 1 -> 1) is restated in the harness's fake FSMServer (the Server method needs a running server); blockingquery.Query itself is the real function",
-        "RPC plumbing above blockingquery.Query, ACL filtering of results"]
+        "endpoint tier: a consul.Server reduced by hooks/agent/consul/zz_verif_c06.go (real FSM/store, real single-node in-memory raft, config defaults, ACLs disabled) runs the real endpoint methods, the real blockingquery.Query and the real Server.SetQueryMeta; the scripted loop cases still use a fake FSMServer that restates the floor",
+        "RPC transport, forwarding between servers, ACL filtering with ACLs enabled, the streaming (submatview) backend"]
     assumptions = ["go-memdb radix watches fire when a row below the watched node is inserted, replaced or deleted",
                    "Raft indexes of successive writes strictly increase"]
     if not ok:
@@ -358,8 +358,15 @@ def run(ctx):
         "evaluations": tot["evals"],
         "distinct_nontrivial": tot["changed"],
         "rule": "evaluations = (query, state) pairs evaluated on the real store; distinct_nontrivial = (query, write) pairs where the result of the query changed across the write (the antecedent of the contract); every such pair gets the direct oracle; model-stream pairs are compared exactly with the Coq model",
-        "histories": {"model": len(model_hs), "ext": len(hs) - len(model_hs), "distinct": len(seen), "loop_cases": len(loops), "loop_cases_inconclusive_timing": len(racy)},
-        "queries_per_state": {"model": nq, "ext": len(qs_ext)},
+        "histories": {"model": len(model_hs), "ext": sum(1 for h in hs if h["stream"] == "ext"),
+                      "endpoint_tier": sum(1 for h in hs if h["stream"] == "ep"), "distinct": len(seen),
+                      "loop_cases": len(loops), "loop_cases_inconclusive_timing": len(racy)},
+        "endpoint_tier": {"what": "real KVS.Get/List/ListKeys, Health.ServiceNodes (plain/tag/connect), Catalog.ServiceNodes/NodeServices, Session.Get through the real blockingquery.Query and Server.SetQueryMeta, blocked at the old index across every write",
+                          "queries_per_state": len(qs_ep),
+                          "changed_replies": sum(h["changed"] for h in hs if h["stream"] == "ep"),
+                          "blocked_calls_woken_with_new_reply": sum(h["fired_tot"] for h in hs if h["stream"] == "ep")},
+        "ext_stream_extras": {"txn_writes": opmix.get("ext:txn", 0), "restore_steps": opmix.get("ext:restore", 0)},
+        "queries_per_state": {"model": nq, "ext": len(qs_ext), "endpoint_tier": len(qs_ep)},
         "traces_validated_against_impl": len(model_hs) - len(mism),
         "model_mismatches": len(mism), "loop_mismatches": len(loop_mism),
         "watch": {"fired": tot["fired_tot"], "spurious_real_wakeups": tot["spurious"], "index_grew_without_result_change": tot["idx_only"]},
